@@ -67,9 +67,25 @@ def lean_audit(pid, modules, theorems):
     return res
 
 
-def forbidden_hits():
+def import_closure(modules):
+    """Lean files (inside the project) that the given modules import, transitively; plus the driver"""
+    seen, todo = set(), list(modules) + ["Main"]
+    while todo:
+        mod = todo.pop()
+        if mod in seen:
+            continue
+        f = LEAN / (mod.replace(".", "/") + ".lean")
+        if not f.exists():
+            continue
+        seen.add(mod)
+        for m in re.findall(r"^import\s+(Boario[\w.]*)", f.read_text(), flags=re.M):
+            todo.append(m)
+    return sorted(LEAN / (m.replace(".", "/") + ".lean") for m in seen)
+
+
+def forbidden_hits(modules):
     hits = []
-    for f in lean_sources():
+    for f in import_closure(modules):
         src = strip_comments(f.read_text())
         for n, line in enumerate(src.splitlines(), 1):
             if FORBIDDEN.search(line):
@@ -154,7 +170,7 @@ def run_check(pid, tier, seed, t0, replay):
         for o in proof_obl:
             if not o["ok"]:
                 problems.append(("proof", f"theorem {o['name']}: {o['detail']}"))
-        hits = forbidden_hits()
+        hits = forbidden_hits(modules)
         if hits:
             problems.append(("proof", "forbidden constructs in Lean sources: " + "; ".join(hits[:5])))
     # ---- 2. implementation side
